@@ -396,6 +396,18 @@ def corpus():
         {"k": "feq", "a": ["a", "1", 1], "b": ["a", "2", 1]},
         {"k": "feq", "a": ["a", "1", 1], "b": ["a", 1, 1]},
         {"k": "feq", "a": ["a", {"n": ["x", "y"]}, 1], "copy": "deepcopy"},
+        # a field built by hand has start_line None: it differs from a parsed one with the same key and value
+        {"k": "feq", "a": ["a", "1", None], "b": ["a", "1", 1]},
+        {"k": "feq", "a": ["a", "1", 3], "b": ["a", "1", None]},
+        {"k": "feq", "a": ["a", "1", None], "b": ["a", "1", None]},
+        {"k": "feq", "a": ["a", "1", None], "b": ["a", "2", None]},
+        {"k": "eq", "a": {"c": "entry", "ty": "a", "key": "k", "fields": [["year", "2020", 4]], "line": 1, "raw": "r", "md": []},
+         "b": {"c": "entry", "ty": "a", "key": "k", "fields": [["year", "2020", None]], "line": 1, "raw": "r", "md": []}},
+        # field keys that are case variants of the reserved names are ordinary keys
+        {"k": "ops", "e": {"c": "entry", "ty": "book", "key": "K", "fields": [["id", "x", 1], ["entrytype", "y", 2], ["Id", "z", 3]],
+                           "line": 0, "raw": "r", "md": []},
+         "ops": [["getitem", "id"], ["getitem", "entrytype"], ["getitem", "Id"], ["getitem", "ID"], ["getitem", "ENTRYTYPE"],
+                 ["get", "id", None], ["contains", "id"], ["setitem", "id", "n"], ["getitem", "id"], ["pop", "Id", None], ["getitem", "id"]]},
     ]
     return cs
 
@@ -553,7 +565,7 @@ def eq_cases():
                 for v in _perturb_val(f[1]):
                     yield {"k": "feq", "a": f, "b": [f[0], v, f[2]]}
                     yield {"k": "feq", "a": [f[0], v, f[2]], "b": f}
-                for l in (f[2] + 1, f[2] - 1, 0):
+                for l in (f[2] + 1, f[2] - 1, 0, None):
                     yield {"k": "feq", "a": f, "b": [f[0], f[1], l]}
     for a, b in itertools.permutations(base, 2):
         yield {"k": "eq", "a": a, "b": b}
@@ -570,7 +582,7 @@ def eq_cases():
 
 def _random_history(rng, base_entries):
     e = dict(rng.choice(base_entries))
-    pool = [f[0] for f in e["fields"]] + ["a", "A", "b", "B", "title", "Title", "year", "é", "ID", "ENTRYTYPE", ""]
+    pool = [f[0] for f in e["fields"]] + ["a", "A", "b", "B", "title", "Title", "year", "é", "ID", "ENTRYTYPE", "", "id", "Id", "entrytype"]
     if rng.random() < 0.85:
         pool = [k for k in pool if k not in RESERVED]
     if rng.random() < 0.2 and e["fields"]:
